@@ -1,6 +1,7 @@
 (* C04: reading is lossless.  Statements only; proofs live in TokenizerProofs.v / LinesProofs.v *)
 Require Import List NArith.
-Require Import Tokenizer TokenizerProofs Symbols.
+Import ListNotations.
+Require Import Tokenizer TokenizerProofs Symbols Lines LinesProofs Inst.
 
 (* for EVERY symbol table (so in particular the one regenerated from vsg/tokens.py) *)
 Theorem C04_create_lossless :
@@ -17,3 +18,23 @@ Print Assumptions C04_create_total.
 Theorem C04_vsg_create_lossless : forall s r, vsg_create s = Some r -> concat r = s.
 Proof. intros s r. apply create_lossless. Qed.
 Print Assumptions C04_vsg_create_lossless.
+
+(* emit(parse(x)) = x at the line level: reading with the line classifiers (blank, whitespace, comment,
+   delimited comment, preprocessor) and emitting with get_lines gives back exactly the lines read *)
+Theorem C04_emit_read : forall ls toks, vsg_read ls = Some toks -> get_lines toks = [] :: ls.
+Proof. intros ls toks. apply emit_read. intros s r. apply create_lossless. Qed.
+Print Assumptions C04_emit_read.
+
+Theorem C04_read_total : forall ls, vsg_read ls <> None.
+Proof. intros ls. apply read_total. intros s. apply create_total. Qed.
+Print Assumptions C04_read_total.
+
+(* the role classifier and the pragma classifier replace objects one-for-one keeping the value *)
+Theorem C04_value_preserving_reclass : forall l l', reclass l l' -> get_lines l' = get_lines l.
+Proof. exact value_preserving_reclass. Qed.
+Print Assumptions C04_value_preserving_reclass.
+
+(* ... or, where it splits a selected name or glues an operator string, regroups a run keeping its text *)
+Theorem C04_regroup_get_lines : forall l l', regroup l l' -> get_lines l' = get_lines l.
+Proof. exact regroup_get_lines. Qed.
+Print Assumptions C04_regroup_get_lines.
